@@ -258,7 +258,8 @@ class CFG:
                 continue
             if s not in self.reachable_from_entry():
                 continue
-            succs = self.succ[s]
+            # `otherwise -> unreachable` arms of exhaustive matches are not real alternatives
+            succs = [x for x in self.succ[s] if self.fn.blocks[x]["term"]["k"] != "unreachable"]
             can = set()
             for x in succs:
                 if bb in self.reach({x}, avoid={s}):
